@@ -59,9 +59,10 @@ def run_trajectory(spec, monitors, probes=("days",), partition=None, controller=
             # keep memory bounded: monitors only need the previous record
             n.records.clear()
 
-        node.day_hooks.append(on_day)
+        # extra hooks observe the state right after the daily solution, before the controller (inside on_day) acts
         for h in extra_day_hooks:
             node.day_hooks.append(h)
+        node.day_hooks.append(on_day)
         if first_call_init:
             # first call initialises: context must exist before day 0 runs -> build it lazily
             class Lazy:
